@@ -202,6 +202,7 @@ fn run(t: &Tape, want_desc: bool) -> CaseResult {
     'states: for transferred in [false, true] {
         let mut base = w.fork();
         let mut current_owner = original_owner.clone();
+        let mut former: Vec<String> = vec![];
         if transferred {
             // the transfer message may or may not also (re)set the code ids
             let tci = if s.bool() { Some(w.codes.cw20) } else { None };
@@ -213,6 +214,18 @@ fn run(t: &Tape, want_desc: bool) -> CaseResult {
             }
             current_owner = new_owner.clone();
             classes.push("state:after-ownership-transfer");
+            // sometimes ownership moves on once more: both earlier owners are then former owners
+            if s.chance(1, 3) {
+                let third = base.actors[2].to_string();
+                let rec = base.exec(Step { sender: new_owner.clone(), call: Call::Factory { msg: FactoryExec::UpdateConfig { owner: Some(third.clone()), token_code_id: None, pair_code_id: None } }, funds: vec![] });
+                if !rec.outcome.is_ok() {
+                    verdict = Verdict::Fail(format!("the new owner's UpdateConfig{{owner}} failed although ownership was transferred to it: {}", rec.outcome.err_text()));
+                    break;
+                }
+                former.push(new_owner.clone());
+                current_owner = third;
+                classes.push("state:after-second-ownership-transfer");
+            }
         } else {
             classes.push("state:before-ownership-transfer");
         }
@@ -228,6 +241,14 @@ fn run(t: &Tape, want_desc: bool) -> CaseResult {
         ];
         if transferred {
             roles.push(Role { name: "former-owner", addr: original_owner.clone(), via_proxy: false });
+            for f in &former {
+                roles.push(Role { name: "former-owner", addr: f.clone(), via_proxy: false });
+            }
+        }
+        // addresses that merely resemble the owner's (a comparison by prefix or by length would confuse them)
+        roles.push(Role { name: "owner-lookalike", addr: format!("{}x", current_owner), via_proxy: false });
+        if current_owner.len() > 3 {
+            roles.push(Role { name: "owner-lookalike", addr: current_owner[..current_owner.len() - 1].to_string(), via_proxy: false });
         }
         for p in &base.pairs {
             roles.push(Role { name: "a-pair", addr: p.addr.to_string(), via_proxy: false });
@@ -356,7 +377,7 @@ pub fn suites() -> Vec<Suite> {
     }]
 }
 
-pub const RULE: &str = "case = generated world (1-2 pairs of generated kinds, liquidity seeded, half of the provider's LP tokens donated to the pair so that a forged withdraw hook has something to burn, router funded) x {before, after UpdateConfig{owner: actor3}} x ALL 9 messages (factory UpdateConfig / CreatePair / AddNativeTokenDecimals / MigratePair; pair UpdateNativeTokenDecimals / Receive(WithdrawLiquidity) / Receive(Swap); router ExecuteSwapOperation / AssertMinimumReceive) with generated arguments x ALL caller roles (current owner, former owner, stranger, fresh address, factory, router, every pair, every LP token, every asset token, the rogue cw20 contract both impersonated and through its forwarding entry point; additionally every pair/router message is smuggled as the payload of the contract's public cw20 Receive entry by a stranger, the rogue contract, an asset token and an LP token, with the envelope's free sender field set to the authorised address or to the caller); a cell is judged when the authorised twin succeeded on a fork of the same state (or when no caller can be authorised at all): the role under test must fail and leave the chain byte-identical; non-trivial = a case with at least one judged cell; distinct = hash of the tape; the class histogram lists every cell with its count";
+pub const RULE: &str = "case = generated world (1-2 pairs of generated kinds, liquidity seeded, half of the provider's LP tokens donated to the pair so that a forged withdraw hook has something to burn, router funded) x {before, after UpdateConfig{owner: actor3}} x ALL 9 messages (factory UpdateConfig / CreatePair / AddNativeTokenDecimals / MigratePair; pair UpdateNativeTokenDecimals / Receive(WithdrawLiquidity) / Receive(Swap); router ExecuteSwapOperation / AssertMinimumReceive) with generated arguments x ALL caller roles (current owner, former owner(s) - a third of the transferred states move ownership on a second time -, addresses that merely resemble the owner's, stranger, fresh address, factory, router, every pair, every LP token, every asset token, the rogue cw20 contract both impersonated and through its forwarding entry point; additionally every pair/router message is smuggled as the payload of the contract's public cw20 Receive entry by a stranger, the rogue contract, an asset token and an LP token, with the envelope's free sender field set to the authorised address or to the caller); a cell is judged when the authorised twin succeeded on a fork of the same state (or when no caller can be authorised at all): the role under test must fail and leave the chain byte-identical; non-trivial = a case with at least one judged cell; distinct = hash of the tape; the class histogram lists every cell with its count";
 pub const ASSUMPTIONS: &[&str] = &[
     "cw-multi-test lets any address be the sender of a message: contract roles are exercised by impersonation, the rogue contract additionally through its own Forward entry point",
     "for pair.Receive(Swap) every cw20 asset of the pair counts as authorised by the statement; whether the hook's named asset matches the sender is C02's subject",
